@@ -639,6 +639,91 @@ fn mutate(rng: &mut StdRng, b: &mut Vec<u8>) {
     }
 }
 
+/// The one path on which a decoded TLV is written again field by field (everything else copies
+/// the validated TLV suffix): an Announce TLV that a boundary clock forwards from its slave port
+/// to a master port. The TLVs on the emitted Announce must carry the type, length and value that
+/// came in, as read by the reference codec.
+pub fn forwarded_tlv_reencode(rep: &mut Report, tlvs_in: &[Tlv], seed: u64) {
+    use crate::drive::*;
+    use statime::observability::port::PortState;
+    let replay = json!({"forward": tlvs_in.iter().map(|t| json!({"ty": t.ty, "value": hex(&t.value)})).collect::<Vec<_>>(), "seed": seed});
+    let mut b = Build::new(0x50);
+    b.n_ports = 2;
+    b.path_trace = false;
+    b.tlv = TlvMode::Scripted;
+    b.seed = seed;
+    let Ok(built) = b.build() else { return };
+    let mut node = built.node;
+    macro_rules! call {
+        ($p:expr, $c:expr) => {
+            match node.call($p, $c) {
+                Ok(a) => a,
+                Err(p) => {
+                    rep.violation(&format!("C04|forward|panic|{}|{}", p.site(), p.class()), &p.describe(), replay.clone());
+                    return;
+                }
+            }
+        };
+    }
+    call!(1, Call::AnnounceReceiptTimer);
+    let mut parent = Remote::new(0x10, 1);
+    parent.body.gm_priority1 = 10;
+    for _ in 0..2 {
+        call!(0, Call::GeneralRx(parent.next_announce().encode()));
+    }
+    if node.bmca().is_err() || node.port_state(0) != PortState::Slave || node.port_state(1) != PortState::Master {
+        return;
+    }
+    let mut m = parent.next_announce();
+    m.tlvs = tlvs_in.to_vec();
+    let acts = call!(0, Call::GeneralRx(m.encode()));
+    let mut n_fwd = 0;
+    for a in acts {
+        if let Act::ForwardTlv { tlv: Some(t), .. } = a {
+            node.forward_tlv(0, t);
+            n_fwd += 1;
+        }
+    }
+    let want: Vec<(u16, Vec<u8>)> = tlvs_in.iter().filter(|t| tlv_propagates(t.ty)).map(|t| (t.ty, t.value.clone())).collect();
+    rep.ev("forwarding_case");
+    if n_fwd != want.len() {
+        // which TLVs are forwarded is C15's question; the codec question needs them all
+        return;
+    }
+    let acts = call!(1, Call::AnnounceTimer);
+    let mut seen = false;
+    for a in acts {
+        if let Act::SendGeneral { data, .. } = a {
+            let Ok(out) = Msg::decode(&data) else {
+                rep.violation("C04|forward|emitted-announce-undecodable", &format!("Announce carrying forwarded TLVs is not decodable by the reference codec: {}", hex(&data)), replay.clone());
+                return;
+            };
+            if out.hdr.msg_type != T_ANNOUNCE {
+                continue;
+            }
+            seen = true;
+            let got: Vec<(u16, Vec<u8>)> = out.tlvs.iter().map(|t| (t.ty, t.value.clone())).collect();
+            rep.evn("forwarded_tlv_reencoded", want.len() as u64);
+            if got != want {
+                let d = got.iter().zip(want.iter()).find(|(g, w)| g != w);
+                let what = match d {
+                    Some((g, w)) if g.0 != w.0 => format!("tlvType {:#06x} re-encoded as {:#06x}", w.0, g.0),
+                    Some((g, w)) if g.1.len() != w.1.len() => format!("tlvType {:#06x}: lengthField {} re-encoded as {}", w.0, w.1.len(), g.1.len()),
+                    Some((_, w)) => format!("tlvType {:#06x}: value changed", w.0),
+                    None => format!("{} TLVs in, {} out", want.len(), got.len()),
+                };
+                rep.violation("C04|forward|tlv-reencode", &format!("TLV forwarded by a boundary clock: {what}"), replay.clone());
+            }
+            if out.trailing.len() > 0 || data.len() != 64 + got.iter().map(|g| 4 + g.1.len()).sum::<usize>() {
+                rep.violation("C04|forward|length", &format!("emitted Announce has {} bytes for {} TLV bytes", data.len(), got.iter().map(|g| 4 + g.1.len()).sum::<usize>()), replay.clone());
+            }
+        }
+    }
+    if !seen {
+        rep.ev("forwarding_no_announce");
+    }
+}
+
 pub fn run(rep: &mut Report, tier: &str, seed: u64, shard: (u32, u32), replay: Option<&str>) {
     rep.rule = "inputs = reference-codec encodings of every message type with swept/lattice/random field values and TLV layouts, their mutations (bit flips, truncations, messageLength relations, TLV length corruption) and pure random bytes; distinct = distinct byte strings; non-trivial = accepted by the decoder (oracle clauses 2-4 ran)".into();
     rep.require(&["accepted", "rejected", "reencoded", "refcodec_compared", "debug_compared", "tail_pairs"]);
@@ -648,6 +733,15 @@ pub fn run(rep: &mut Report, tier: &str, seed: u64, shard: (u32, u32), replay: O
     let mut rng = StdRng::seed_from_u64(seed ^ 0xc04 ^ ((shard.0 as u64) << 40));
     if let Some(path) = replay {
         let v: serde_json::Value = serde_json::from_str(&std::fs::read_to_string(path).unwrap()).unwrap();
+        if let Some(f) = v["case"]["forward"].as_array() {
+            let tlvs: Vec<Tlv> = f.iter().map(|t| Tlv::new(t["ty"].as_u64().unwrap() as u16, unhex(t["value"].as_str().unwrap()))).collect();
+            forwarded_tlv_reencode(rep, &tlvs, v["case"]["seed"].as_u64().unwrap_or(0));
+            println!("replay of a forwarding case: {} finding(s)", rep.findings.len());
+            for f in rep.findings.values() {
+                println!("  {}", f.what);
+            }
+            return;
+        }
         let bytes = unhex(v["case"]["bytes"].as_str().unwrap());
         check_input(rep, &bytes, "replay", &mut rng);
         println!("replay of {} bytes: {} finding(s)", bytes.len(), rep.findings.len());
@@ -805,6 +899,38 @@ pub fn run(rep: &mut Report, tier: &str, seed: u64, shard: (u32, u32), replay: O
                     one(rep, &m3.encode(), "tlv-length-lies", &mut rng);
                 }
             }
+        }
+    }
+    if tier != "miri" {
+        rep.require(&["forwarding_case", "forwarded_tlv_reencoded"]);
+        // every tlvType around the edges of the propagating ranges (shard 0), then a seeded
+        // stride through all of them, with every small lengthField
+        let mut types: Vec<u16> = vec![];
+        if shard.0 == 0 {
+            types.extend([0x0007u16, 0x0008, 0x0009, 0x000a, 0x2004, 0x3fff, 0x7ffe, 0x7fff, 0x8000, 0x8001]);
+            types.extend(0x4000..=0x4020u16);
+        }
+        let stride = if tier == "thorough" { 7 } else { 257 };
+        let mut ty = 0x4000u32 + (seed as u32 + shard.0 * 31) % stride;
+        while ty <= 0x7fff {
+            types.push(ty as u16);
+            ty += stride;
+        }
+        for (i, ty) in types.iter().enumerate() {
+            let len = if *ty == 0x4000 { 6 + 2 * (i % 20) } else { 2 * (i % 24) };
+            let mut tl = vec![Tlv::new(*ty, (0..len).map(|_| rng.gen()).collect())];
+            if i % 3 == 0 {
+                let t2 = [0x4000u16, 0x4001, 0x0009, 0x8000, 0x0003, 0x7fff][rng.gen_range(0..6)];
+                let l2 = 6 + 2 * rng.gen_range(0..10usize);
+                let second = Tlv::new(t2, (0..l2).map(|_| rng.gen()).collect());
+                if rng.gen() {
+                    tl.push(second);
+                } else {
+                    tl.insert(0, second);
+                }
+            }
+            forwarded_tlv_reencode(rep, &tl, rng.gen());
+            rep.evaluations += 1;
         }
     }
     let n: u64 = if tier == "miri" { 400 } else if tier == "thorough" { 6_000_000 } else { 150_000 };
